@@ -27,6 +27,7 @@ type Ctrl struct {
 	Bufsiz     int                    `json:"bufsiz"`
 	PeriodMs   int                    `json:"period_ms"` // 0 = relisting disabled (10000h)
 	Filter     world.FilterSpec       `json:"filter"`
+	Unstructured bool                 `json:"unstructured,omitempty"` // the server speaks the dynamic client's representation
 	Bystander  bool                   `json:"bystander,omitempty"` // a second, unrelated controller in the same process whose every Watch call hangs: controllers share nothing
 	BaseRV     int                    `json:"base_rv,omitempty"` // the server's version counter starts here (0 = 10)
 	Init       []world.Spec           `json:"init"`
@@ -94,6 +95,7 @@ func bulkInit(rng *rand.Rand, n int) []world.Spec {
 	return out
 }
 
+// (populations in the thousands are used where they are cheap: the first list of C08, the bare cache of C01/C02)
 func bulkSize(rng *rand.Rand) int { return pickInt(rng, 17, 40, 101, 129, 257, 300, 520) }
 
 func genInit(rng *rand.Rand, nkeys int) []world.Spec {
@@ -153,6 +155,7 @@ func genC03(g GenCtx) interface{} {
 	sc := &Ctrl{Prop: g.Prop}
 	sc.BaseRV = world.BaseRVs[rng.Intn(len(world.BaseRVs))]
 	sc.Bufsiz = pickInt(rng, 2, 3, 5, 10, 100)
+	sc.Unstructured = rng.Intn(8) == 0
 	sc.PeriodMs = pickInt(rng, 50, 200, 1000, 10000, 60000)
 	if g.Idx%8 == 1 {
 		sc.PeriodMs = pickInt(rng, 50, 200, 1000)
@@ -211,6 +214,7 @@ func genC04(g GenCtx) interface{} {
 	sc.BaseRV = world.BaseRVs[rng.Intn(len(world.BaseRVs))]
 	sc.Bufsiz = pickInt(rng, 2, 3, 4, 8, 16, 100)
 	sc.Bystander = rng.Intn(4) == 0
+	sc.Unstructured = rng.Intn(8) == 0
 	sc.PeriodMs = 0
 	if rng.Intn(3) == 0 {
 		sc.Filter = randFilter(rng)
@@ -266,6 +270,7 @@ func runCtrl(sci interface{}) {
 	setBufsiz(sc.Bufsiz)
 	srv := world.NewServer("pod")
 	srv.SetBaseRV(sc.BaseRV)
+	srv.Unstructured = sc.Unstructured
 	srv.F = world.NewFaults(sc.Faults)
 	srv.ListLatency = [2]time.Duration{ms(sc.ListLatMs[0]), ms(sc.ListLatMs[1])}
 	srv.VaryLatency = sc.VaryLat
